@@ -270,7 +270,7 @@ def r43(e: Engine, rep: Report):
                   loc=bad[0].loc() if bad else '')
 
 
-def r44(e: Engine, rep: Report):
+def r44(e: Engine, rep: Report, rule: str = 'R4.4'):
     ctx = e.method_ctx(DISK, 'load')
     g = e.build(ctx)
     where = ctx.func.qname
@@ -280,7 +280,7 @@ def r44(e: Engine, rep: Report):
              'get_ids' in ast.unparse(n.ast.iter)]
     rep.evaluations += 1
     if not reads or not loops:
-        rep.bad('R4.4', where, 'scan over get_ids() reading each meta',
+        rep.bad(rule, where, 'scan over get_ids() reading each meta',
                 'load() no longer scans get_ids()/read_meta',
                 loc=ctx.func.loc())
         return
@@ -295,7 +295,7 @@ def r44(e: Engine, rep: Report):
                 for types, h in sc.data['handlers']:
                     if builder_match(e, 'builtins.FileNotFoundError', types):
                         hs.append(h)
-        rep.check(bool(hs), 'R4.4', where,
+        rep.check(bool(hs), rule, where,
                   'a missing meta file is handled per id, inside the loop',
                   'read_meta in the start-up scan is not protected by a '
                   'handler for OSError inside the loop: one message whose '
@@ -310,7 +310,7 @@ def r44(e: Engine, rep: Report):
                 for sc in m.scopes)]
             leaves = [m for m in inside if m.kind == 'stmt' and
                       isinstance(m.ast, (ast.Raise, ast.Return, ast.Break))]
-            rep.check(not leaves, 'R4.4', where,
+            rep.check(not leaves, rule, where,
                       'the handler continues with the next id',
                       'the OSError arm of the scan raises / returns / '
                       'breaks: the scan stops at the first damaged message',
@@ -331,7 +331,7 @@ def r44(e: Engine, rep: Report):
             g2, n, lambda x: x is g2.raise_exit,
             avoid=lambda x: x.kind == 'handler' and
             x.frame is g2.entry.frame)
-        rep.check(pth is None, 'R4.4', where,
+        rep.check(pth is None, rule, where,
                   '`%s` below read_meta stays inside the scan'
                   % ' '.join(ast.unparse(n.ast).split())[:50],
                   'an exception raised explicitly while reading one '
@@ -347,7 +347,7 @@ def r44(e: Engine, rep: Report):
     src = ast.unparse(ctx.func.node)
     rep.evaluations += 1
     rep.check("'.env'" in src and 'env_dir' in src and 'listdir' in src,
-              'R4.4',
+              rule,
               ctx.func.qname, 'ids are discovered from *.env in env_dir',
               'get_ids no longer filters on the .env suffix of env_dir: '
               'temp files or foreign files are taken for messages',
